@@ -61,6 +61,8 @@ StateClauses(T, e, ch) ==
   \cup Fail("C09", "KnownCarryHiddenValues", KnownExact(t, env.hid))
   \cup Fail("C09", "HiddenIsLastDrawnGame", e.env.draws >= 1 /\ e.env.draws <= Len(T.games) /\ e.env.hid = T.games[e.env.draws])
   \cup Fail("C09", "BoundsFreshlyRecomputed", exact => t = Canonical(cfg.comp, cfg.r, Known(t), env.hid))
+  \* C08: whatever history of steps and (non-LIFO) unsteps led here, the bounds are those of the knowledge alone
+  \cup Fail("C08", "BoundsAreFunctionOfKnowledgeAfterAnyUndoOrder", exact => t = Canonical(cfg.comp, cfg.r, Known(t), env.hid))
   \cup Fail("C09", "BoundsFreshlyRecomputedQuant",
             ((~exact) /\ cfg.comp # "sam") =>
                LET w == Canonical(cfg.comp, cfg.r, Known(t), env.hid)
